@@ -69,8 +69,12 @@ impl Harness for C20 {
                 (false, false) => 6,
                 (false, true) => 9,
             };
+            // the slow iterative logistic regression is split further (by target pattern)
+            let parts = if e == 4 { 3 } else { 1 };
             for f in 0..firsts {
-                jobs.push(Job::new(format!("est-{}-first{}", name, f), json!({"kind": "est", "e": e, "first": f, "t": t, "seed": seed})));
+                for part in 0..parts {
+                    jobs.push(Job::new(format!("est-{}-first{}{}", name, f, if parts > 1 { format!("-part{}", part) } else { String::new() }), json!({"kind": "est", "e": e, "first": f, "part": part, "parts": parts, "t": t, "seed": seed})));
+                }
             }
         }
         for &(r, c) in &shapes {
@@ -82,17 +86,36 @@ impl Harness for C20 {
             jobs,
             budget_s: if t { 2400 } else { 40 },
             case_deadline_ms: 20_000,
-            floors: vec![
-                ("cases_in_domain", 10_000),
-                ("cases_shape_mismatch", 10_000),
-                ("mismatch_rejected_by_all_three", 1_000),
-                ("cases_with_transposed_layout_operand", 5_000),
-            ],
+            floors: {
+                let mut f = vec![
+                    ("cases_in_domain", 20_000),
+                    ("cases_shape_mismatch", 20_000),
+                    ("mismatch_rejected_by_all_three", 20_000),
+                    ("cases_with_transposed_layout_operand", 10_000),
+                    ("chain_nonsquare_after_transpose", 300),
+                    ("chain_reached_1x1", 1_000),
+                    ("chain_reached_1xN", 2_000),
+                    ("chain_reached_Nx1", 2_000),
+                    ("cases_with_values_from_all_three_backends", 300_000),
+                    ("estimator_cases_with_transposed_layout_input", 200_000),
+                    ("estimator_runs_in_guard_process", 24),
+                ];
+                // every estimator / decomposition must have produced values (on the built-in backend) often
+                for (name, _, _) in est::ESTS.iter() {
+                    f.push((*name, if *name == "gaussian_nb" { 500 } else { 1_000 }));
+                }
+                f
+            },
             bounds: json!({
-                "matrix_shapes": format!("every 1<=r,c<={}", nmax),
+                "matrix_operations": format!("every BaseMatrix / MatrixStats / MatrixPreprocessing / HighOrderOperations method (all parameter instances: every slice range, every reshape target, every index list of length <= 2{}, every element position) x every shape 1<=r,c<={} x 4 value alphabets x 2 operand layouts; two-operand methods x every pair of shapes within the bound x 4 layout combinations (compatible and incompatible)", if t { " (3 for axes <= 4)" } else { "" }, nmax),
+                "vector_operations": format!("every BaseVector method x every length 1..={} (pairs of lengths for two-operand methods) x 4 value alphabets x 3 vector sources (from_array, get_row of a transposed-layout matrix, to_row_vector of a column matrix)", vmax),
                 "value_alphabets": FILLS,
                 "layouts": bk::LAYOUTS,
-                "seed": format!("VERIF_SEED {} selects the power/odd multiple applied to the index-coded alphabet (8 fixed multipliers, 0 = plain)", seed),
+                "chains_E2": format!("6 start shapes <= 2x3, 16 actions, every history of length <= {}", if t { 5 } else { 3 }),
+                "estimators": format!("{} estimators x every data set of {} rows drawn (with repetition, ordered) from a {}-point lattice x 3-6 target patterns x every listed configuration x 2 input layouts; queries = the 3x3 lattice", est::FIRST_DECOMPOSITION, if t { 5 } else { 4 }, if t { 9 } else { 6 }),
+                "decompositions": format!("LU, QR, SVD, EVD (general, symmetric on A+A^T), Cholesky (on A^T A + I) and their solvers on every 3x3 matrix over {} x 2 layouts", if t { "{0,1,-1,2,-2}" } else { "{0,1,-1}" }),
+                "termination": "per-case deadline 20 s (driver); Lasso / ElasticNet on the two bindings run in a child process with a deadline of 0.25 s CPU time (10 s wall) per fit",
+                "seed": format!("VERIF_SEED {} selects the multiplier applied to the alphabets (8 fixed multipliers, 0 = plain)", seed),
             }),
         }
     }
@@ -202,7 +225,10 @@ fn est_case(job: &Job, t: bool, seed: u64) {
         let y: Vec<f64> = match target {
             0 => Y_REG[mc::choose(Y_REG.len())][..n].to_vec(),
             1 => Y_CLS[mc::choose(4)][..n].to_vec(),
-            2 => Y_CLS[mc::choose(Y_CLS.len())][..n].to_vec(),
+            2 => {
+                let (part, parts) = (job.u("part"), job.u("parts").max(1));
+                Y_CLS[part + parts * mc::choose(Y_CLS.len() / parts)][..n].to_vec()
+            }
             _ => vec![0.0; n],
         };
         // integer-valued (count / category) inputs are not scaled
